@@ -26,6 +26,55 @@ def walk_numbers(x, out):
     return out
 
 
+BIGA = [(0, 0), (40009, 0), (40013, 30011), (3, 30029)]
+BIGB = [(10007, -5003), (50021, 10009), (20011, 45007)]
+
+
+class BigCross:
+    """crossing parameters and result vertices for polygons with 5-digit coordinates in general position (the exact
+    crossing parameters have denominators above 10^9): B translated by the symbolic t*(3, 1)"""
+
+    nfree = 0
+    max_degree = 2
+    replay_any_denominator = True
+
+    def __init__(self):
+        self.names = ["t"]
+
+    def domain(self, xs):
+        return [xs[0] >= -100, xs[0] <= 100]
+
+    def extra_envs(self):
+        return [[F(1, 3)], [F(7, 11)], [F(-5, 13)], [F(10**6 + 3, 10**6)], [F(37, 10**4 + 7)]]
+
+    def run(self, xs):
+        from shapepy import JordanCurve
+
+        t = xs[0]
+        ja = JordanCurve.from_vertices(BIGA)
+        jb = JordanCurve.from_vertices([(x + 3 * t, y + t) for x, y in BIGB])
+        inter = [[a, b, u, v] for a, b, u, v in ja.intersection(jb) if u is not None]
+        return {"crossings": inter}
+
+    def oblige(self, tr, out):
+        nums = walk_numbers(out, [])
+        bad = [n for n in nums if not geom.numtype_ok(n)]
+        return [("a Python float entered an output value", z3.BoolVal(bool(bad)), {})]
+
+    def on_raise(self, exc, func, line):
+        return None
+
+    def confirm(self, name, xs, outcome, exc):
+        if outcome is None:
+            return False, str(exc)
+        nums = walk_numbers(outcome, [])
+        bad = [n for n in nums if not geom.numtype_ok(n)]
+        return bool(bad), f"big-coordinate crossing at t={xs[0]}: {[repr(b) for b in bad[:3]]}"
+
+    def signature(self, name, xs, outcome, exc):
+        return {"name": "float in exact output"}
+
+
 class ExactOps(BoolExpr):
     """result vertices, area, first moments and the crossing parameters of the two boundaries
     must be exact values on every path: no Python float may have entered them"""
@@ -168,6 +217,7 @@ def specs(tier):
         for op in ["|", "&", "-"] + (["^"] if tier != "quick" else []):
             out.append(dict(module="checks.c13", scenario="ExactOps", params=dict(A=A, B=B, expr=[op, "A", "B"]), time_budget=None if tier == "quick" else 2400))
     out.append(dict(module="checks.c13", scenario="CapWitness", params={}))
+    out.append(dict(module="checks.c13", scenario="BigCross", params={}))
     for s in ["penta", "hollow", "two"] + (["inv:two", "ell", "framedot"] if tier != "quick" else []):
         for w in ("move", "scale"):
             out.append(dict(module="checks.c13", scenario="ExactTransform", params=dict(shape=s, what=w)))
@@ -180,15 +230,7 @@ def main(tier, seed):
     r = Runner("C13", tier, seed)
     r.exact_compare = True
     r.run_specs(specs(tier))
-    # values that the plain library stores differently from the exact rational of the symbolic run
-    for n, ix in enumerate(r.inexact):
-        worst = max(abs(F(a[1]) - F(float(b[1])) if b[0] == "f" else abs(F(a[1]) - F(b[1]))) for _, a, b in ix["diffs"])
-        isfloat = any(b[0] == "f" for _, a, b in ix["diffs"])
-        v = dict(name="stored value differs from the exact rational", env=ix["env"], spec=ix["spec"], reproduced=True,
-                 text=f"{ix['spec']['params']} at {ix['env']}: exact vs stored {ix['diffs'][:2]} (max difference {float(worst):.3g})",
-                 sig={"name": "float in exact output"} if isfloat else {"name": "inexact rational", "difference_below_1e-10": bool(worst < F(1, 10**10))}, meta={})
-        r.results.append(dict(ok=True, spec=ix["spec"], leaves=[], violations=[v], obligations=0, discharged=0, undecided=0, ob_queries={},
-                              stats=dict(paths=1, exhaustive=True, by_kind={}, unknown_alt=0, q_by_answer={}, tsolve=0), wall=0, functions=[], names=[])) if False else r.extra_violations.append(v)
+    r.inexact_to_violations()
     return r.finish(
         explanation="(i) kind tracking on every path of the operator / intersection / integral / move / scale explorations: a value into which a "
         "Python float entered is tagged, and z3-explored path conditions cover all parameter values; (ii) every path witness is replayed on "
